@@ -91,6 +91,8 @@ class World(object):
         self.trace = []         # [token, object produced or None, exception class raised or None] per scripted call
         self.tags = []          # Tag objects the real nfc.tag.activate returned
         self.act_targets = []   # the targets nfc.tag.activate was called with
+        self.sense_args = []    # (log position, target object) handed to the device's sense_* methods
+        self.startup_targets = None   # the list the rdwr on-startup callback returned (code 0: new objects)
         self.commands = []      # command frames seen by send_cmd_recv_rsp (real-tag runs)
         self.link = []          # NFC-DEP exchanges of the real link loop (real-LLC runs): what the local side sent
         self.term_at = None     # real-LLC busy-traffic runs: terminate() is true from this number of link exchanges on
@@ -184,6 +186,7 @@ def make_classes(nfc, world):
             self._simple("off")
 
         def _sense(self, tok, target, build):
+            W().sense_args.append((len(W().log), target))
             a, i = self._simple(tok)
             w = W()
             if a[0] == "F":
@@ -581,7 +584,8 @@ def build_options(nfc, world, spec):
                 w.log.append("cb:rdwr:startup:%s" % code)
                 w.cb_args.append(("rdwr", "startup", targets))
                 if code == 0:
-                    return [remote_target(nfc, t, i) for i, t in enumerate(tg)]
+                    w.startup_targets = [remote_target(nfc, t, i) for i, t in enumerate(tg)]
+                    return w.startup_targets
                 return [None, [], ["106A"], 1, None][code]
             d["on-startup"] = on_startup
         put(d, "rdwr", "discover", "on-discover", s["di"])
